@@ -1,5 +1,113 @@
-"""Thorough tier: quick + checker self-validation (seeded mutants on scratch copies). Filled in later."""
+"""Thorough tier = quick + checker self-validation + informational second configuration.
+
+E3 (kill matrix): every registered mutant (reverse patches of the fix: commits, sub-agent seeds, ported seeds, hand-written rule
+mutants) that names a rule of this property is applied to a scratch copy of /repo's *current working tree* (outside /repo and
+/verif, removed afterwards), facts are re-extracted, and the rule must fire. A patch that no longer applies is `skipped`; a
+mutant that applies but is not killed is reported as SELFTEST-MISS in the output and the evidence - neither ever produces a
+VIOLATION or a non-zero exit code: only violations on /repo's own tree do.
+Benign set: behaviour-preserving refactorings (mutants/benign/*.diff) must leave the property silent; a report on one of them
+is printed as SELFTEST-FALSE-ALARM (again: evidence only).
+E5: the same rules are run on the `async-io-rio` configuration (not part of the pinned build) - informational.
+"""
+import json
+import os
+import shutil
+import subprocess
+import tempfile
+import time
+
+import engine
+
+VERIF = engine.VERIF
+REG = os.path.join(VERIF, 'mutants', 'registry.json')
+
+
+def load_registry():
+    if not os.path.exists(REG):
+        return []
+    with open(REG) as f:
+        return json.load(f)['mutants']
+
+
+def scratch_copy():
+    d = tempfile.mkdtemp(prefix='pearl-verif-scratch-')
+    subprocess.run(['rsync', '-a', '--exclude', 'target', '--exclude', '.git', engine.REPO + '/', d + '/'], check=True)
+    return d
+
+
+def apply_patch(d, patch):
+    r = subprocess.run(['git', 'apply', '--whitespace=nowarn', patch], cwd=d, stdout=subprocess.PIPE, stderr=subprocess.STDOUT, text=True)
+    if r.returncode == 0:
+        return True
+    r = subprocess.run(['patch', '-p1', '-s', '-f', '--no-backup-if-mismatch', '-i', patch], cwd=d, stdout=subprocess.PIPE, stderr=subprocess.STDOUT, text=True)
+    return r.returncode == 0
 
 
 def run(prop, ev):
-    return 0, []
+    t0 = time.time()
+    lines = []
+    reg = load_registry()
+    mine = [m for m in reg if any(r.startswith(prop + '.') for r in m.get('expects', []))]
+    benign = [m for m in reg if m.get('kind') == 'benign']
+    matrix = []
+    base = None
+    try:
+        base = scratch_copy()
+        for m in mine + benign:
+            patch = os.path.join(VERIF, m['patch'])
+            d = tempfile.mkdtemp(prefix='pearl-verif-mut-')
+            try:
+                subprocess.run(['rsync', '-a', base + '/', d + '/'], check=True)
+                if not apply_patch(d, patch):
+                    matrix.append({'mutant': m['id'], 'kind': m.get('kind'), 'status': 'skipped (patch does not apply to the current tree)'})
+                    continue
+                try:
+                    prog = engine.extract(repo=d, tag='mut')
+                except engine.EngineError as e:
+                    matrix.append({'mutant': m['id'], 'kind': m.get('kind'), 'status': 'skipped (does not compile on the current tree)'})
+                    continue
+                code, _, mev, ctx = engine.run_property(prop, 'thorough', prog=prog, write=False)
+                fired = sorted({i.rule for i in ctx.insts if not i.ok})
+                if m.get('kind') == 'benign':
+                    if fired:
+                        matrix.append({'mutant': m['id'], 'kind': 'benign', 'status': 'FALSE-ALARM', 'fired': fired})
+                        lines.append('SELFTEST-FALSE-ALARM property=%s benign refactoring %s makes %s fire' % (prop, m['id'], fired))
+                    else:
+                        matrix.append({'mutant': m['id'], 'kind': 'benign', 'status': 'silent'})
+                    continue
+                want = [r for r in m['expects'] if r.startswith(prop + '.')]
+                killed = [r for r in want if r in fired]
+                if killed:
+                    matrix.append({'mutant': m['id'], 'kind': m.get('kind'), 'status': 'killed', 'by': killed, 'also_fired': [r for r in fired if r not in killed]})
+                else:
+                    matrix.append({'mutant': m['id'], 'kind': m.get('kind'), 'status': 'MISSED', 'expected': want, 'fired': fired})
+                    lines.append('SELFTEST-MISS property=%s mutant %s expected %s, fired %s' % (prop, m['id'], want, fired))
+            finally:
+                shutil.rmtree(d, ignore_errors=True)
+    finally:
+        if base:
+            shutil.rmtree(base, ignore_errors=True)
+    # informational: async-io-rio configuration
+    rio = None
+    try:
+        prog = engine.extract(features='async-io-rio', target=os.path.join(engine.CACHE, 'target-rio'), tag='rio')
+        code, _, rev, rctx = engine.run_property(prop, 'thorough', prog=prog, write=False)
+        rio = {'functions': len(prog.fns), 'instances': len(rctx.insts), 'holding': sum(1 for i in rctx.insts if i.ok),
+               'not_holding (unarmed, informational)': sorted({'%s %s' % (i.rule, i.key) for i in rctx.insts if not i.ok})[:20]}
+    except Exception as e:  # the feature build is not part of the pinned configuration: never fatal
+        rio = {'error': str(e)[-300:]}
+    cov = ev['coverage']
+    cov['selftest'] = {
+        'mutants_for_this_property': len(mine), 'killed': sum(1 for x in matrix if x['status'] == 'killed'),
+        'missed': sum(1 for x in matrix if x['status'] == 'MISSED'), 'skipped': sum(1 for x in matrix if x['status'].startswith('skipped')),
+        'benign_refactorings': len(benign), 'benign_silent': sum(1 for x in matrix if x['status'] == 'silent'),
+        'benign_false_alarms': sum(1 for x in matrix if x['status'] == 'FALSE-ALARM'),
+        'matrix': matrix,
+    }
+    cov['async_io_rio_configuration'] = rio
+    cov['evaluations'] = cov.get('evaluations', 0) + len(matrix)
+    ev['tier'] = 'thorough'
+    ev['wall_s'] = round(ev.get('wall_s', 0) + time.time() - t0, 3)
+    lines.append('%s thorough self-test: %d/%d mutants killed, %d skipped, %d benign refactorings silent of %d' % (
+        prop, cov['selftest']['killed'], len(mine), cov['selftest']['skipped'], cov['selftest']['benign_silent'], len(benign)))
+    return 0, lines
